@@ -55,7 +55,7 @@ func cstr(s []byte) []byte { return append(append([]byte(nil), s...), 0) }
 func rawTLVs(r *Rng) []byte {
 	var b []byte
 	n := r.Pick([]int{0, 1, 2, 3, 5, 9})
-	tags := []uint16{0x0005, 0x0204, 0x0424, 0x1400, 0x0005, 0x0001, 0xFFFF, uint16(r.U64()), genTag(r), genTag(r), 0x020C, 0x020E, 0x020F}
+	tags := []uint16{0x0005, 0x0204, 0x0424, 0x1400, 0x0005, 0x0001, 0xFFFF, 0x0000, 0x7FFF, 0x8000, 0x00FF, 0x0100, uint16(r.U64()), genTag(r), genTag(r), 0x020C, 0x020E, 0x020F}
 	put := func(tag uint16, v []byte) {
 		b = append(b, byte(tag>>8), byte(tag), byte(len(v)>>8), byte(len(v)))
 		b = append(b, v...)
@@ -294,7 +294,7 @@ func corrC13(r *Run) {
 		id := uint32(reflect.ValueOf(o.PDU).Elem().Field(0).Interface().(pdu.Header).CommandID)
 		_, err, w, panicked, pmsg := marshalRec(o.PDU)
 		if panicked {
-			r.Fail("reencode/marshal-panic", "Marshal panicked on a decoded PDU", in, pmsg, "a value or an error")
+			r.Fail(pcls("reencode/marshal-panic", pmsg), "Marshal panicked on a decoded PDU", in, pmsg, "a value or an error")
 			return
 		}
 		if err == nil && len(w.calls) == 1 {
